@@ -379,6 +379,34 @@ def recursion_designs():
                                      "views": [{"name": "default", "attrs": [{"name": "a"}]}]}],
              "services": [{"name": "rvsvc", "methods": [dict({"name": "run", "http": {"verb": "GET", "path": "/run"}}, **({"result": R("Rv")} if used else {}))]}]}
         out.append(("render-view-undefined/%s" % ("used" if used else "unused"), d))
+    # two result types whose identifiers differ in the suffix only (one canonical identifier); the SECOND renders a nested result type with a
+    # view that type does not define: refused, as for any other result type (whatever the validation keys its bookkeeping by)
+    for shape in ("single", "collection", "first"):
+        child = {"name": "Child", "kind": "result", "identifier": "application/vnd.child", "att": {"type": {"is_object": True, "object": [{"name": "a", "att": P("String")}]}},
+                 "views": [{"name": "default", "attrs": [{"name": "a"}]}]}
+        plain = lambda n, ident: {"name": n, "kind": "result", "identifier": ident, "att": {"type": {"is_object": True, "object": [{"name": "a", "att": P("String")}]}},
+                                  "views": [{"name": "default", "attrs": [{"name": "a"}]}]}
+        dangling = lambda n, ident: {"name": n, "kind": "result", "identifier": ident,
+                                     "att": {"type": {"is_object": True, "object": [{"name": "a", "att": P("String")}, {"name": "child", "att": R("Child")}]}},
+                                     "views": [{"name": "default", "attrs": [{"name": "a"}, {"name": "child", "view": "extended"}]}]}
+        if shape == "first":
+            types = [child, dangling("TwinJSON", "application/vnd.twin+json"), plain("TwinXML", "application/vnd.twin+xml")]
+            res = R("TwinJSON")
+        else:
+            types = [child, plain("TwinJSON", "application/vnd.twin+json"), dangling("TwinXML", "application/vnd.twin+xml")]
+            res = R("TwinXML") if shape == "single" else {"type": {"collection": "TwinXML"}}
+        out.append(("must-refuse/twin-identifiers/%s" % shape, {"api": "twin", "types": types,
+                    "services": [{"name": "twinsvc", "methods": [{"name": "run", "result": res, "http": {"verb": "GET", "path": "/run"}}]}]}))
+    # requirements at API level with one kind of scheme, at service level with another: the method inherits the SERVICE's (and only needs its credentials)
+    for kind in ("jwt", "apikey", "oauth2"):
+        scheme = {"name": "top", "kind": kind}
+        if kind in ("jwt", "oauth2"):
+            scheme["scopes"] = ["api:read"]
+        out.append(("must-accept/service-requirement-overrides-api/%s" % kind, {
+            "api": "ovr", "schemes": [scheme, {"name": "login", "kind": "basic"}], "security": [{"schemes": ["top"]}],
+            "services": [{"name": "ovrsvc", "security": [{"schemes": ["login"]}], "methods": [
+                {"name": "run", "payload": {"type": {"is_object": True, "object": [{"name": "user", "att": P("String")}, {"name": "pass", "att": P("String")}]}, "required": ["user", "pass"]},
+                 "creds": {"user": "username", "pass": "password"}, "http": {"verb": "GET", "path": "/run"}}]}]}))
     for sname, types in shapes.items():
         for transport in ("http", "grpc", "both"):
             for where in ("payload", "result", "error"):
@@ -444,8 +472,20 @@ def recursion_part(c, work):
         c.count(("rec", label))
         crash = rep.get("crash") or rep.get("panic")
         c.hist("recursive_types", "crash" if crash else ("accepted" if rep.get("accepted") else "refused"))
+        if label.startswith("must-accept/") and not rep.get("accepted"):
+            c.fail("c12/valid-design-%s:%s" % ("crashes" if crash else "refused", label.split("/", 1)[1]), "a valid design (%s) is not accepted: %s" %
+                   (label, str(crash or rep.get("errors"))[-300:]), input={"seed": c.seed, "family": label}, design=d)
+            continue
+        if label.startswith("must-refuse/") and not crash and rep.get("accepted"):
+            c.fail("c12/dangling-reference-accepted:" + label.split("/", 1)[1], "a design that names something that does not exist (%s) is accepted" % label,
+                   input={"seed": c.seed, "family": label}, design=d)
+            continue
         if crash:
             kind = "endless-recursion" if "stack overflow" in str(crash) else ("time-out" if "timeout" in str(crash) else "panic")
+            if label.startswith("must-refuse/"):
+                c.fail("c12/%s:%s" % (kind, label.split("/", 1)[1]), "evaluating the design (%s) does not return an error: %s" % (label, str(crash)[-300:]),
+                       input={"seed": c.seed, "family": label}, design=d)
+                continue
             if label.startswith("parent/"):
                 c.fail("c12/parent-service-%s:%s" % (kind, label.split("/")[1]), "evaluating a design with a child service under Parent(...) (%s) does not return: %s" % (label, str(crash)[-300:]),
                        input={"seed": c.seed, "family": label}, design=d)
